@@ -6,6 +6,7 @@
 //!   cvh drive  <spec> --out trace.ndjson [--n N] [opts]                 (code -> spec traces)
 mod build;
 mod common;
+mod isolate;
 mod observe;
 mod props;
 
@@ -32,6 +33,8 @@ fn main() {
         ("drive", "xlsx_tables") => props::xlsx_tables::drive(&args),
         ("replay", "de") => props::de::replay(&args),
         ("drive", "de") => props::de::drive(&args),
+        ("replay", "cfb") => isolate::run_replay(&args, props::cfb::replay),
+        ("drive", "cfb") => isolate::run_drive(&args, props::cfb::drive),
         _ => {
             eprintln!("unknown command {} {}", args.cmd, args.sub);
             2
